@@ -7,11 +7,61 @@ HOOK_COMMITS = ["db387c4"]
 
 # id -> (level category, technique, level text, level note, design ref)
 CHECKS = {
+ "C02": ("exploration",
+         "differential self-comparison over executions: print(parse x) re-parsed and re-printed, object graphs compared by a reflection serialiser (identity-bearing objects in bijection, the rest by value)",
+         "Every accepted input of the corpus (atoms, repo testdata, llvm-stress, generated modules) and five respellings of each (hex ints, hex floats, quoted names, comments, shuffled definitions) is printed, re-parsed and re-printed; the second print must equal the first byte for byte and the two object graphs must serialise identically.",
+         "Structural identity is judged in the printed state (lazy ID assignment has run on both sides); caches (Successors) and mutexes are skipped; nil and empty slices alike.",
+         "DESIGN.md §4 C02"),
+ "C04": ("exploration",
+         "structural-invariant monitor: reflection census over the object graph returned by the parser at the quiescent point (after Parse returns)",
+         "The identity census walks every reachable reference slot of every accepted module and checks pointer identity with the listed definition (module lists, enclosing function, blockaddress function, TypeDefs by name) and parent links; counts of slots checked by kind, forward and cyclic references are reported.",
+         "Sees what is reachable through exported fields; binding to a different definition of the right kind is left to C01's canonical comparison.",
+         "DESIGN.md §4 C04"),
+ "C09": ("exploration",
+         "reference-model monitor: math/big arithmetic and LLVM 14 (llvm-as|llvm-dis) judge the value of every literal read by NewIntFromString / asm.ParseString and every literal chosen by Ident",
+         "All values of i1..i12 (quick) / i1..i16 (thorough) in every accepted spelling, plus boundary, low-entropy (hex/decimal switch-over) and PRNG values for 20 widths up to i4099: printed literal re-read equals the value; every spelling denotes the big-integer value; LLVM cross-checks each literal batch.",
+         "s0x is judged as two's complement at the type width (the property's wording); LLVM's top-active-bit rule is consulted only where both coincide.",
+         "DESIGN.md §4 C09"),
+ "C12": ("exploration",
+         "differential monitor under the Go race detector: repeated, cross-process, cross-entry-point and concurrent parses compared by text and structural digest; Visit hooks record map-iteration orders actually seen; canary over exported singletons",
+         "Each (input, fresh process) pair: R sequential parses, five entry points, parses after unrelated activity and 8-32 concurrent parses of different inputs must agree on accept/reject, String() and structural digest; digests also agree across 3-8 processes; hook events show that the translator's map loops ran in >=2 different orders for the counted inputs.",
+         "Map orders are observed, not forced; error messages are not compared, only accept/reject.",
+         "DESIGN.md §4 C12"),
+ "C13": ("exploration",
+         "Go race detector over concurrent printers of one shared module with PRNG yields at hook sites, plus twin-text oracle (every returned text must equal a sequential text)",
+         "Three scenarios (whole-module printers from both states; all operations on an already printed module; all operations on a never-printed module), N in {2,4,16}, GOMAXPROCS in {2,16}; rounds count only if >=2 printers were active at once; race reports keyed by entry-point pair and writing function.",
+         "Reports exist only for interleavings that occurred; Succs() is outside the property's operation set. Open findings: per-function/per-global printers racing with the FIRST whole-module print (KNOWN_FINDINGS.txt).",
+         "DESIGN.md §4 C13"),
+ "C14": ("exploration",
+         "differential history monitor: the same edit history replayed on fresh modules with and without observer calls; final texts compared, panics caught",
+         "PRNG edit histories (6-40 steps over add/insert/remove/rename/set-terminator/metadata) x observer placements (every position x 11 observer kinds for short histories; PRNG subsets for long ones) plus eight minimal witness histories of the renumbering family.",
+         "The reference is the history without observers; histories use i32 arithmetic, memory and branch instructions.",
+         "DESIGN.md §4 C14"),
+ "C15": ("exploration",
+         "reflection monitor on live instructions: operand-field addresses vs Operands(), sentinel writes through every slot judged on LLString(), replace-all-uses judged on the printed function, Succs() vs target fields before and after retargeting",
+         "Every instruction and terminator of every function of the accepted corpus (all 66 kinds occur in the atoms): completeness, liveness of each slot, replace-all-uses of up to 12 values per function, successor views incl. retargeting through a slot.",
+         "Arguments with parameter attributes (*ir.Arg) and metadata-wrapped arguments are treated as transparent wrappers; uselistorder directives are not instructions.",
+         "DESIGN.md §4 C15"),
+ "C16": ("exploration",
+         "reference-model monitor: Equal over generated type universes judged against an independent canonical-descriptor identity; neighbours differing in one attribute; parse(print(t))",
+         "24 (quick) / 400 (thorough) universes of 40-140 types in LLVM's data model: all ordered pairs for agreement with the reference identity, reflexivity, symmetry; all triples for transitivity; every one-attribute neighbour unequal; Equal(t, parse(print t)) and parsed-vs-constructed pairs.",
+         "Termination observed through the worker supervisor (a diverging Equal kills the worker or trips the watchdog).",
+         "DESIGN.md §4 C16"),
+ "C18": ("exploration",
+         "round-trip monitor over the enumerated domain read from the current source with go/types: String()/FromString, keyword clashes, Type(N) fall-backs, host-module round trips, flag-set round trips, numeric forms",
+         "All constants of the 35 enum types + FloatKind; each keyword in its host construct printed, re-parsed and offered to llvm-as; all AllocKind and DISPFlag subsets, DIFlag subsets up to size 2/3 plus PRNG subsets crossed with the 2-bit sub-fields; cc 1..1023 and raw DWARF tags.",
+         "The domain comes from the tree's own source; hosts LLVM rejects are not judged by LLVM.",
+         "DESIGN.md §4 C18"),
  "C19": ("fault_enumeration",
          "fault-injecting io.Writer monitor: WriteTo is run against a writer failing at every byte offset; (n, err, bytes, writes-after-failure) judged against String()",
          "Every module of the corpus is written to instrumented writers that fail (sentinel error / short write) after exactly k bytes, for every k in [0,len(String())] on modules up to 6000 bytes and 400 sampled offsets beyond; the oracle compares the returned count, error identity, delivered prefix and post-failure writes with the contract. Exhaustive over offsets per module, not over modules.",
          "Trusts Go's fmt to call Write once per print call; modules come from the corpus (atoms, repo testdata, llvm-stress), so printer paths outside it are not driven.",
          "DESIGN.md §4 C19"),
+ "C20": ("exploration",
+         "axiom monitor over enumerated strings (natsort.Less through the export hook, math/big for digit runs) and permutation-invariance monitor on re-parsed permuted inputs",
+         "All ordered pairs of all strings of length<=4 (quick) / 5 (thorough) over {0,1,9,a,b,-} plus PRNG strings: irreflexive, asymmetric, total, numeric on single-run differences; all triples of a 320/1200-string subset; natsort.Strings sorted permutation; every corpus module re-parsed under all (<=5 entities) or sampled permutations of its definitions must print like the original with only the textual-order lists rearranged.",
+         "source_filename/target/module asm lines are kept in place (LLVM itself orders them); modules with unnamed globals, repeated definitions or uselistorder are not permuted.",
+         "DESIGN.md §4 C20"),
 }
 
 NOT_YET = {}
